@@ -27,18 +27,28 @@ From VRP Require Import Base.Tac Model.Core Spec.Feasible.
 Record pplace := mkPPlace { pl_loc : Z; pl_dur : Z; pl_tws : list (Z * Z); pl_tag : option Z }.
 Record ptask := mkPTask { tk_kind : Z; tk_places : list pplace; tk_demand : Z }.
 (* tasks in the order pickups ++ deliveries ++ replacements ++ services; pj_static: not (pickups and deliveries both present) *)
-Record pjob := mkPJob { pj_id : Z; pj_tasks : list ptask; pj_static : bool; pj_skills : list Z }.
+(* pj_skills = skills.allOf, pj_one = skills.oneOf, pj_none = skills.noneOf (empty list = condition absent);
+   pj_xdem: demands in the capacity dimensions 1, 2, ... : one list per extra dimension, one entry per task (task order);
+   tk_demand keeps dimension 0 *)
+Record pjob := mkPJob { pj_id : Z; pj_tasks : list ptask; pj_static : bool; pj_skills : list Z;
+                        pj_one : list Z; pj_none : list Z; pj_group : option Z; pj_compat : option Z;
+                        pj_xdem : list (list Z) }.
 Record pshift := mkPShift { sh_start : Z; sh_earliest : Z; sh_latest : Z; sh_end : option (Z * Z) (* location, latest *) }.
 Record pvtype := mkPVType {
   vt_id : Z; vt_vehicles : list Z; vt_shifts : list pshift; vt_cap : Z;
   vt_fixed : Z; vt_cd : Z; vt_ct : Z; vt_skills : list Z;
-  vt_maxdist : option Z; vt_maxdur : option Z; vt_toursize : option Z }.
-Record pproblem := mkPProblem { pr_jobs : list pjob; pr_fleet : list pvtype; pr_n : Z; pr_dur : list Z; pr_dist : list Z }.
+  vt_maxdist : option Z; vt_maxdur : option Z; vt_toursize : option Z;
+  vt_xcap : list Z                 (* capacity in the dimensions 1, 2, ... (vt_cap = dimension 0) *) }.
+(* pr_err: the matrix `errorCodes` (row-major like pr_dur; [] = absent): a positive entry marks the leg as unreachable *)
+Record pproblem := mkPProblem { pr_jobs : list pjob; pr_fleet : list pvtype; pr_n : Z; pr_dur : list Z; pr_dist : list Z;
+                                pr_err : list Z }.
 
 Record sact := mkSAct { sa_job : Z; sa_kind : Z; sa_loc : option Z; sa_time : option (Z * Z); sa_tag : option Z }.
 Record sstat := mkSStat { st_cost : Z; st_dist : Z; st_dur : Z; st_drive : Z; st_serve : Z; st_wait : Z; st_break : Z }.
 Record sstop := mkSStop { ss_loc : Z; ss_arr : Z; ss_dep : Z; ss_load : Z; ss_dist : Z; ss_acts : list sact }.
-Record stour := mkSTour { to_vehicle : Z; to_type : Z; to_shift : nat; to_stops : list sstop; to_stat : sstat }.
+(* to_xload: reported loads in the dimensions 1, 2, ...: one list per extra dimension, one entry per stop (ss_load = dimension 0) *)
+Record stour := mkSTour { to_vehicle : Z; to_type : Z; to_shift : nat; to_stops : list sstop; to_stat : sstat;
+                          to_xload : list (list Z) }.
 (* unassigned: job id, number of reasons *)
 Record ssolution := mkSSolution { sl_stat : sstat; sl_tours : list stour; sl_unassigned : list (Z * nat) }.
 
@@ -68,6 +78,10 @@ Inductive violation :=
 | FTourSize (tour : Z)
 | FShiftStart (tour : Z)          (* departure outside [earliest, latest] or not from the shift's start location *)
 | FEndLocation (tour : Z)
+| FCompatibility (tour : Z)       (* two jobs of the tour carry different compatibility classes *)
+| FGroup (group : Z)              (* jobs of one group are served by two different tours *)
+| FUnreachable (tour : Z) (act : Z)   (* the leg arriving at flattened activity `act` is marked unreachable by errorCodes *)
+| FCapacityDim (tour : Z) (dim : Z)   (* the load exceeds the capacity in dimension dim >= 1 somewhere in the tour *)
 (* R: reproducibility (C03) *)
 | RNoReplay (tour : Z)            (* as FNoTour: nothing to replay *)
 | RArrival (tour : Z) (act : Z)   (* reported arrival at an activity (stop arrival / end of the previous activity) <> replay *)
@@ -79,14 +93,19 @@ Inductive violation :=
 | RTag (tour : Z) (act : Z)       (* reported tag is not the tag of a place of the task with the used location, duration, window *)
 | RStatDistance (tour : Z) | RStatDuration (tour : Z) | RStatDriving (tour : Z) | RStatServing (tour : Z)
 | RStatWaiting (tour : Z) | RStatBreak (tour : Z) | RStatCost (tour : Z)
+| RLoadDim (tour : Z) (dim : Z) (stop : Z)   (* as RLoad, in capacity dimension dim >= 1 *)
 | RTotal (field : Z)              (* overall statistic field (0 cost,1 distance,2 duration,3 driving,4 serving,5 waiting,6 break) <> sum of tours *)
 .
 
 (* ------------------------------------------------------------------ small helpers *)
 Definition zmem (j : Z) (l : list Z) : bool := existsb (Z.eqb j) l.
 Definition pmat (n : Z) (m : list Z) (i j : Z) : Z := nth (Z.to_nat (i * n + j)) m 0.
-Definition pdur (P : pproblem) := pmat (pr_n P) (pr_dur P).
-Definition pdist (P : pproblem) := pmat (pr_n P) (pr_dist P).
+(* the routing data as the problem reader hands it to the solver: an entry whose errorCodes value is positive reads -1
+   (fleet_reader.rs create_transport_costs); without errorCodes the matrix itself *)
+Definition perr (P : pproblem) (i j : Z) : Z := pmat (pr_n P) (pr_err P) i j.
+Definition pmat_e (P : pproblem) (m : list Z) (i j : Z) : Z := if 0 <? perr P i j then -1 else pmat (pr_n P) m i j.
+Definition pdur (P : pproblem) := pmat_e P (pr_dur P).
+Definition pdist (P : pproblem) := pmat_e P (pr_dist P).
 Definition NEGT : Z := - INF.
 
 Fixpoint mapi_from {A B} (k : Z) (f : Z -> A -> B) (l : list A) : list B :=
@@ -222,7 +241,7 @@ Fixpoint tasks_distinct (l : list ptask) : bool :=
 Fixpoint dup_ids (l : list Z) : list Z :=
   match l with [] => [] | x :: r => (if zmem x r then [x] else []) ++ dup_ids r end.
 Definition diag_zero (P : pproblem) : bool :=
-  (0 <? pr_n P) && (length (pr_dur P) =? Z.to_nat (pr_n P * pr_n P))%nat && (length (pr_dist P) =? Z.to_nat (pr_n P * pr_n P))%nat
+  (0 <? pr_n P) && (match pr_err P with [] => true | l => (length l =? Z.to_nat (pr_n P * pr_n P))%nat end) && (length (pr_dur P) =? Z.to_nat (pr_n P * pr_n P))%nat && (length (pr_dist P) =? Z.to_nat (pr_n P * pr_n P))%nat
   && forallb (fun i => (pdur P i i =? 0) && (pdist P i i =? 0)) (map Z.of_nat (seq 0 (Z.to_nat (pr_n P)))).
 Definition precond_viol (P : pproblem) : list violation :=
   flat_map (fun job => if tasks_distinct (pj_tasks job) then [] else [PTasksAmbiguous (pj_id job)]) (pr_jobs P)
@@ -346,7 +365,11 @@ Definition replay_serving (t : list act) : Z := sumz (map a_svc (tl t)).
 Definition replay_waiting (dur : Z -> Z -> Z) (t : list act) : Z :=
   sumz (map (fun ax => Z.max (fst (snd ax)) (a_tws (fst ax)) - fst (snd ax)) (tl (combine t (replay dur t)))).
 
-Definition skills_ok (vt : pvtype) (job : pjob) : bool := forallb (fun s => zmem s (vt_skills vt)) (pj_skills job).
+(* allOf: every listed skill is a vehicle skill; oneOf (when present): at least one is; noneOf: none is *)
+Definition skills_ok (vt : pvtype) (job : pjob) : bool :=
+  forallb (fun s => zmem s (vt_skills vt)) (pj_skills job)
+  && (match pj_one job with [] => true | l => existsb (fun s => zmem s (vt_skills vt)) l end)
+  && forallb (fun s => negb (zmem s (vt_skills vt))) (pj_none job).
 Definition le_opt (x : Z) (lim : option Z) : bool := match lim with Some l => x <=? l | None => true end.
 
 Definition feasible_viol (P : pproblem) (k : Z) (t : stour) : list violation :=
@@ -464,9 +487,94 @@ Definition replay_viol (P : pproblem) (S : ssolution) : list violation :=
 Definition feasible_viols (P : pproblem) (S : ssolution) : list violation :=
   concat (mapi (feasible_viol P) (sl_tours S)).
 
+(* ================================================================== X: the rules added with the wider generator *)
+(* ---- compatibility: jobs with different compatibility classes never share a tour (jobs without a class mix freely) *)
+Definition tour_job_ids (t : stour) : list Z := map fa_job (job_acts t).
+Definition opt_of {A} (P : pproblem) (f : pjob -> option A) (j : Z) : option A :=
+  match find_job P j with Some job => f job | None => None end.
+Fixpoint somes {A} (l : list (option A)) : list A :=
+  match l with [] => [] | Some x :: r => x :: somes r | None :: r => somes r end.
+Definition tour_compats (P : pproblem) (t : stour) : list Z := somes (map (opt_of P pj_compat) (tour_job_ids t)).
+Definition all_same (l : list Z) : bool := match l with [] => true | x :: r => forallb (Z.eqb x) r end.
+Definition compat_viols (P : pproblem) (S : ssolution) : list violation :=
+  concat (mapi (fun k t => if all_same (tour_compats P t) then [] else [FCompatibility k]) (sl_tours S)).
+Definition Compatible (P : pproblem) (t : stour) : Prop :=
+  forall c1 c2, In c1 (tour_compats P t) -> In c2 (tour_compats P t) -> c1 = c2.
+
+(* ---- groups: all assigned jobs of one group are in ONE tour *)
+Definition tour_groups (P : pproblem) (t : stour) : list Z := somes (map (opt_of P pj_group) (tour_job_ids t)).
+Fixpoint group_viols_from (P : pproblem) (before : list Z) (l : list stour) : list violation :=
+  match l with
+  | [] => []
+  | t :: r => let gs := tour_groups P t in
+              map FGroup (nodup Z.eq_dec (filter (fun g => zmem g before) gs)) ++ group_viols_from P (before ++ gs) r
+  end.
+Definition group_viols (P : pproblem) (S : ssolution) : list violation := group_viols_from P [] (sl_tours S).
+Definition Grouped (P : pproblem) (S : ssolution) : Prop :=
+  forall k1 k2 t1 t2 g, nth_error (sl_tours S) k1 = Some t1 -> nth_error (sl_tours S) k2 = Some t2 ->
+                        In g (tour_groups P t1) -> In g (tour_groups P t2) -> k1 = k2.
+
+(* ---- reachability: no leg of the reported visiting order (consecutive flattened activities) is marked unreachable *)
+Fixpoint legs_viol (P : pproblem) (k i : Z) (loc : Z) (l : list fact) : list violation :=
+  match l with
+  | [] => []
+  | a :: r => (if 0 <? perr P loc (fa_loc a) then [FUnreachable k i] else []) ++ legs_viol P k (i + 1) (fa_loc a) r
+  end.
+Definition reach_viol (P : pproblem) (k : Z) (t : stour) : list violation :=
+  match flat_tour t with [] => [] | d :: r => legs_viol P k 1 (fa_loc d) r end.
+Definition reach_viols (P : pproblem) (S : ssolution) : list violation := concat (mapi (reach_viol P) (sl_tours S)).
+Definition Reachable (P : pproblem) (t : stour) : Prop :=
+  forall l1 a b l2, flat_tour t = l1 ++ a :: b :: l2 -> perr P (fa_loc a) (fa_loc b) <= 0.
+
+(* ---- capacity in the dimensions 1, 2, ...: the problem and the tour are PROJECTED on one extra dimension and the very same
+        single-dimension machinery (rebuild, Spec.Feasible.load_feasible, replay_loads) is applied to the projection *)
+Fixpoint mapn_from {A B} (i : nat) (f : nat -> A -> B) (l : list A) : list B :=
+  match l with [] => [] | x :: r => f i x :: mapn_from (S i) f r end.
+Definition dim_task (xs : list Z) (i : nat) (tk : ptask) : ptask := mkPTask (tk_kind tk) (tk_places tk) (nth i xs 0).
+Definition dim_job (d : nat) (job : pjob) : pjob :=
+  mkPJob (pj_id job) (mapn_from 0 (dim_task (nth d (pj_xdem job) [])) (pj_tasks job)) (pj_static job) (pj_skills job)
+         (pj_one job) (pj_none job) (pj_group job) (pj_compat job) [].
+Definition dim_vtype (d : nat) (vt : pvtype) : pvtype :=
+  mkPVType (vt_id vt) (vt_vehicles vt) (vt_shifts vt) (nth d (vt_xcap vt) 0) (vt_fixed vt) (vt_cd vt) (vt_ct vt) (vt_skills vt)
+           (vt_maxdist vt) (vt_maxdur vt) (vt_toursize vt) [].
+Definition dim_problem (d : nat) (P : pproblem) : pproblem :=
+  mkPProblem (map (dim_job d) (pr_jobs P)) (map (dim_vtype d) (pr_fleet P)) (pr_n P) (pr_dur P) (pr_dist P) (pr_err P).
+Definition dim_stop (xs : list Z) (i : nat) (s : sstop) : sstop :=
+  mkSStop (ss_loc s) (ss_arr s) (ss_dep s) (nth i xs 0) (ss_dist s) (ss_acts s).
+Definition dim_tour (d : nat) (t : stour) : stour :=
+  mkSTour (to_vehicle t) (to_type t) (to_shift t) (mapn_from 0 (dim_stop (nth d (to_xload t) [])) (to_stops t)) (to_stat t) [].
+(* number of extra dimensions of the problem *)
+Definition xdims (P : pproblem) : nat := fold_right Nat.max 0%nat (map (fun vt => length (vt_xcap vt)) (pr_fleet P)).
+
+Definition load_checks (k dz : Z) (t : stour) (facts : list fact) (loads : list Z) : list violation :=
+  concat (mapi (fun s st => match last_index_of_stop s facts 0 None with
+                            | None => []
+                            | Some i => if ss_load st =? nth_z loads i 0 then [] else [RLoadDim k dz s]
+                            end) (to_stops t)).
+(* one tour, one extra dimension d (0-based; reported as dimension d + 1) *)
+Definition dim_tour_viol (P : pproblem) (k : Z) (t : stour) (d : nat) : list violation * list violation :=
+  let dz := Z.of_nat d + 1 in
+  match rebuild (dim_problem d P) (dim_tour d t) with
+  | None => ([], [])                       (* FNoTour / RNoReplay already say so: the projection keeps places and times *)
+  | Some r =>
+    let has_end := match rb_arr r with Some _ => true | None => false end in
+    let facts := rb_dep r :: map fst (rb_jobs r) ++ (match rb_arr r with Some e => [e] | None => [] end) in
+    ((if load_feasible (v_cap (rb_veh r)) (rb_acts r) then [] else [FCapacityDim k dz]),
+     load_checks k dz (dim_tour d t) facts (replay_loads has_end (rb_acts r)))
+  end.
+Definition dims_feasible_viols (P : pproblem) (S : ssolution) : list violation :=
+  concat (mapi (fun k t => flat_map (fun d => fst (dim_tour_viol P k t d)) (seq 0 (xdims P))) (sl_tours S)).
+Definition dims_replay_viols (P : pproblem) (S : ssolution) : list violation :=
+  concat (mapi (fun k t => flat_map (fun d => snd (dim_tour_viol P k t d)) (seq 0 (xdims P))) (sl_tours S)).
+
+(* group F, second part (C01) and group R, second part (C03) *)
+Definition xfeasible_viols (P : pproblem) (S : ssolution) : list violation :=
+  compat_viols P S ++ group_viols P S ++ reach_viols P S ++ dims_feasible_viols P S.
+Definition xreplay_viols (P : pproblem) (S : ssolution) : list violation := dims_replay_viols P S.
+
 (* ================================================================== the checker *)
 Definition valid_b (P : pproblem) (S : ssolution) : list violation :=
-  precond_viol P ++ accounted_b P S ++ feasible_viols P S ++ replay_viol P S.
+  precond_viol P ++ accounted_b P S ++ feasible_viols P S ++ replay_viol P S ++ xfeasible_viols P S ++ xreplay_viols P S.
 
 (* a compact per-solution summary used by the plugins for the input-distribution statistics:
    (number of tours, job activities, unassigned jobs, total waiting replayed) *)
